@@ -112,7 +112,7 @@ def record(sc):
                         cls = dict(op=elfi.Operation, sim=elfi.Simulator, sum=elfi.Summary)[e["kind"]]
                         cls(f, *parents, model=m, name=e["x"])
                 elif e["a"] == "addedge":
-                    m.add_edge(e["y"], e["x"], param_name={-1: "ka", -2: "kb"}[e["v"]])
+                    m.add_edge(e["y"], e["x"], param_name={-1: "ka", -2: "kb"}.get(e["v"], e["v"] - 1))      # v >= 1: explicit position v - 1
                 elif e["a"] == "become":
                     m[e["x"]].become(m[e["y"]])
                 elif e["a"] == "remove":
@@ -279,9 +279,42 @@ PINNED_F14 = dict(acts=[dict(a="add", h="m", x="a", kind="op", op=1, parents=[],
                         dict(a="become", h="m", x="a", y="b")], fresh=False, pinned="F14")
 
 
+def positional_histories(rnd, n):
+    """model.add_edge with an EXPLICIT position: repairing a child after its parent was removed, and wiring the positional
+    parents of a node one by one in any order; followed by copy / save+load"""
+    out = []
+    for i in range(n):
+        names = rnd.sample(NAMES, 4)
+        a, b, c, d = names
+        kinds = [rnd.choice(["op", "prior", "sim"]) for _ in range(4)]
+        acts = [dict(a="add", h="m", x=a, kind=kinds[0], op=1, parents=[], privs=[]),
+                dict(a="add", h="m", x=b, kind=kinds[1], op=2, parents=[], privs=[])]
+        ck = rnd.choice(["op", "sim"])
+        if i % 2 == 0:      # child with parents (a, b) [and sometimes a third]; a parent is removed and replaced in place
+            third = rnd.random() < 0.4
+            acts.append(dict(a="add", h="m", x=d, kind=kinds[3], op=4, parents=[], privs=[]))
+            pars = [a, b] + ([d] if third else [])
+            rnd.shuffle(pars)
+            acts.append(dict(a="add", h="m", x=c, kind=ck, op=3, parents=list(pars), privs=[]))
+            k = rnd.randrange(len(pars))
+            gone = pars[k]
+            acts.append(dict(a="remove", h="m", x=gone))
+            new = "g"
+            acts.append(dict(a="add", h="m", x=new, kind=rnd.choice(["op", "prior"]), op=5, parents=[], privs=[]))
+            acts.append(dict(a="addedge", h="m", x=c, y=new, v=k + 1))
+        else:               # a parentless node wired explicitly, positions in any order
+            acts.append(dict(a="add", h="m", x=c, kind=ck, op=3, parents=[], privs=[]))
+            order = rnd.choice([[0, 1], [1, 0]])
+            for k in order:
+                acts.append(dict(a="addedge", h="m", x=c, y=[a, b][k], v=k + 1))
+        acts.append(dict(a=rnd.choice(["copy", "saveload"]), h="m", h2="k"))
+        out.append(dict(acts=acts, fresh=True))
+    return out
+
+
 def scenarios(ctx):
     rnd = random.Random(ctx.seed)
-    out = [dict(PINNED_F14)]
+    out = [dict(PINNED_F14)] + positional_histories(rnd, 24 if ctx.quick else 200)
     n_fresh = 1400 if ctx.quick else 8000
     for _ in range(n_fresh):
         out.append(dict(acts=random_history(rnd, rnd.randint(3, 9)), fresh=True))
@@ -302,6 +335,8 @@ def nonfresh_become(sc, upto):
             G.add_node(e["x"])
             for p in e.get("parents", []):
                 G.add_edge(p, e["x"])
+        elif e["a"] == "addedge":           # model.add_edge(parent y, child x)
+            G.add_edge(e["y"], e["x"])
         elif e["a"] == "become":
             x, y = e["x"], e["y"]
             if not G.has_node(x) or not G.has_node(y):
